@@ -30,6 +30,8 @@ ENGINES = [
      "kind_free_text": "history: predecessor transaction(s) then probe on one WAF (pooled object reuse); probe outcome vs Lean model on a fresh state"},
     {"name": "engrep", "path": "go/cmd/corr/eng.go", "serves_properties": ["C04", "C12"],
      "kind_free_text": "repetition: each generated case 13x on fresh WAFs; all outcomes equal each other and the Lean model"},
+    {"name": "reader", "path": "go/cmd/corr/reader.go", "serves_properties": ["C05"],
+     "kind_free_text": "history: a body reader handed out by a closed transaction, read after the recycled object buffered the next body; vs the Lean reader model"},
     {"name": "auditiso", "path": "go/cmd/corr/audit.go", "serves_properties": ["C05"],
      "kind_free_text": "history: predecessor changing audit engine/parts by ctl, then probe on one WAF with a real audit log; the probe's record vs the Lean model on a fresh state"},
     {"name": "rxm", "path": "go/cmd/corr/rxm.go", "serves_properties": ["C15"],
@@ -66,8 +68,10 @@ CLAIMED = {
         text="Lean 4 theorems: newTransaction applied to any closed transaction state equals the brand-new state "
              "(C05_reinit, every modelled field covered), hence for every predecessor, request and API call sequence the "
              "probe's whole trace equals the trace on a fresh transaction (C05_probe); a witness shows the collection reset "
-             "in Close is necessary. Tied to /repo by `iso`: predecessor + probe on one WAF, probe outcome vs the model on a "
-             "fresh state.",
+             "in Close is necessary; for every history of writes, readers and reads a body reader handed out before Close yields no byte "
+             "afterwards, whatever the recycled buffer holds (C05_readers_dead, by the invariant that every open reader is registered "
+             "with the buffer). Tied to /repo by `iso` (predecessor + probe on one WAF, probe outcome vs the model on a fresh state), "
+             "`auditiso` (audit engine/parts overrides) and `reader` (stale body readers).",
         note=_ENG_NOTE, ref="6/C05", engine="iso"),
     "C13": dict(
         text="Lean 4 theorems: the cache key function is injective on (kind, input) (prefix code), the cache invariant "
